@@ -4,7 +4,8 @@ use std::collections::HashMap;
 use std::path::PathBuf;
 
 pub fn load_tables(workdir: &str) -> HashMap<String, Vec<String>> {
-    let t = std::fs::read_to_string(format!("{}/keywords.txt", workdir)).expect("keywords.txt (run svx)");
+    // the committed reference lists (the standard), falling back to the tables regenerated from the code
+    let t = std::fs::read_to_string(format!("{}/../svx/keywords_baseline.txt", workdir)).or_else(|_| std::fs::read_to_string(format!("{}/keywords.txt", workdir))).expect("keywords.txt (run svx)");
     t.lines().map(|l| { let mut it = l.split(' '); let k = it.next().unwrap().to_string(); (k, it.map(|x| x.to_string()).collect()) }).collect()
 }
 
